@@ -9,8 +9,13 @@ for id in "$@"; do
   d=seeded/$id
   wt=$(mktemp -d /tmp/rbwt.XXXXXX); rmdir "$wt"
   git -C /repo worktree add --detach "$wt" HEAD -q || { echo "$id: no worktree"; continue; }
-  if git -C "$wt" apply --check "$PWD/$d/patch.diff" 2>/dev/null; then echo "$id: applies"; git -C /repo worktree remove --force "$wt"; continue; fi
-  git -C "$wt" apply --3way "$PWD/$d/patch.diff" >/dev/null 2>&1
+  if git -C "$wt" apply --check "$PWD/$d/patch.diff" 2>/dev/null; then
+    echo "$id: applies"
+    if [ -z "${REVALIDATE:-}" ]; then git -C /repo worktree remove --force "$wt"; continue; fi
+    git -C "$wt" apply "$PWD/$d/patch.diff"   # REVALIDATE=1: run demonstration and suite again on the current HEAD
+  else
+    git -C "$wt" apply --3way "$PWD/$d/patch.diff" >/dev/null 2>&1
+  fi
   if grep -rq '^<<<<<<<' "$wt/py7zr"; then
     # both sides added lines at the same place (the usual case after later fix commits): keep both, ours first, and let the
     # demonstration and the suite decide whether the result still is the seeded change
